@@ -140,7 +140,25 @@ def fixed(vc):
             mode="R", note="the Earth-fixed state stored for a ground facility equals lla2ecef(configured latitude, longitude, altitude) (lla2ecef itself: O-C04-lla-fwd.*), and the dynamics start at the clock's Julian date")
 def config(vc):
     if not vc.symbolic:
-        vc.ensure("O-C11-config", True)
+        # native replay: the real factory with a real clock that has been advanced k steps (facility added mid-run)
+        import datetime
+        from resonaate.scenario.config.state_config import LLAStateConfig
+        from resonaate.scenario.config.platform_config import GroundFacilityConfig
+        from resonaate.scenario.clock import ScenarioClock
+        from resonaate.dynamics import dynamicsFactory
+        from resonaate.physics.transforms.methods import lla2ecef
+        lat, lon, alt = vc.real("lat", -89, 89), vc.real("lon", -179, 179), vc.real("alt", 0, 9)
+        k = vc.int("steps_before", 0, 50)
+        from resonaate.physics.time.stardate import ScenarioTime, datetimeToJulianDate
+        start = datetime.datetime(2021, 3, 30, 16, 55, 7) + datetime.timedelta(seconds=vc.int("start_off", 0, 86400 * 300))
+        clock = object.__new__(ScenarioClock)  # (the constructor only adds database rows for the epochs)
+        clock.__dict__.update(datetime_start=start, julian_date_start=datetimeToJulianDate(start), time=ScenarioTime(0), dt_step=ScenarioTime(60.0))
+        for _ in range(k):
+            clock.ticToc()
+        dyn = dynamicsFactory(_NS(platform=GroundFacilityConfig(), state=LLAStateConfig(latitude=lat, longitude=lon, altitude=alt)), None, None, None, clock)
+        want = lla2ecef(np.array([np.radians(lat), np.radians(lon), alt]))
+        ecef = np.asarray(dyn.x_ecef, dtype=float)
+        vc.ensure("O-C11-config", bool(np.linalg.norm(ecef[:3] - want[:3]) < 1e-6 and np.linalg.norm(ecef[3:]) < 1e-9))
         return
     C04._frame_stubs(vc)
     site = orth.LState(vc.lvec("site"), orth.LVec({}))
@@ -158,7 +176,8 @@ def config(vc):
     plat = object.__new__(pc.GroundFacilityConfig)
     agent_cfg = _NS(platform=plat, state=st)
     when = _Instant("start", 0)
-    clock = _NS(julian_date_start="JD0", datetime_start=when)
+    # the clock may be anywhere in the run (a facility added at run time): the current epoch is a different instant from the start
+    clock = _NS(julian_date_start="JD0", datetime_start=when, datetime_epoch=_Instant("epoch", 0), julian_date_epoch="JDNOW", time=vc.real("t_now", 0, 1e7))
     made = {}
     vc.stub(DY + "@Terrestrial", lambda jd, x: made.update(jd=jd, x=x) or "dyn")
     out = vc.fn(DY + "dynamicsFactory")(agent_cfg, None, None, None, clock)
